@@ -1,4 +1,13 @@
 import PyrollModel.Gen.C17
 import PyrollModel.EvalDriver
+/-- one evaluable entry `<name>#<k>` per FORMULA alternative `k` (index in `Impl.alts`) of every translated
+    implementation, so that the harness can run each guarded branch against the python function it came from -/
+def altTable : List (String × Expr) :=
+  Gen.C17.impls.flatMap fun (n, i) =>
+    i.alts.zipIdx.filterMap fun (a, k) =>
+      match a.2 with
+      | .expr e => some (n ++ "#" ++ toString k, e)
+      | _ => none
+
 /-- Float evaluation of the formulas generated for C17 (see PyrollModel/EvalDriver.lean for the protocol). -/
-def main : IO Unit := EvalDriver.main Gen.C17.table
+def main : IO Unit := EvalDriver.main (Gen.C17.table ++ altTable)
